@@ -136,10 +136,6 @@ func c18Exec(x *Ctx) {
 		}
 		return nil
 	})
-	rootIno := uint64(0)
-	if fi, err := os.Lstat(u.Root); err == nil {
-		rootIno = fi.Sys().(*syscall.Stat_t).Ino
-	}
 	outsideBefore := c18Outside(u)
 	var dirs, real []string
 	for _, e := range tree {
@@ -222,8 +218,8 @@ func c18Exec(x *Ctx) {
 				if len(wr.M.Wqid) == len(names) {
 					target = 2
 				}
-				if aname == "" && cur == 0 && len(names) > 0 && len(wr.M.Wqid) > 0 && names[0] == ".." && wr.M.Wqid[0].Path != rootIno {
-					x.Violate("x3-dotdot-at-root", "'..' at the root of the exported tree yields qid path %d, the root is %d", wr.M.Wqid[0].Path, rootIno)
+				if aname == "" && cur == 0 && len(names) > 0 && len(wr.M.Wqid) > 0 && names[0] == ".." && wr.M.Wqid[0].Path != ar.M.Qid.Path {
+					x.Violate("x3-dotdot-at-root", "'..' at the root of the exported tree yields qid path %d, the root's (as reported by Rattach) is %d", wr.M.Wqid[0].Path, ar.M.Qid.Path)
 				}
 				if len(names) > 0 && names[0] == ".." {
 					x.Probe("dotdot-walk")
